@@ -106,6 +106,9 @@ type Config struct {
 	Workers    int   // worker processes; 0 = in-process
 	MaxViol    int   // stop collecting after this many distinct signatures
 	EnvCost    bool  // environment choices also cost a deviation (fault bounding)
+	// OnlyClauses, if set, keeps only violations of these oracle clauses (a harness shared by two
+	// properties reports each clause under the property it belongs to)
+	OnlyClauses []string
 }
 
 // Stats of one exploration (mergeable).
@@ -281,6 +284,17 @@ func account(h Harness, cfg *Config, it item, st *Stats) []item {
 		st.Samples = append(st.Samples, x.log)
 	}
 	for _, v := range x.viol {
+		if len(cfg.OnlyClauses) > 0 {
+			keep := false
+			for _, c := range cfg.OnlyClauses {
+				if c == v.Clause || v.Clause == "no-panic" || v.Clause == "no-deadlock" || v.Clause == "terminates" {
+					keep = true
+				}
+			}
+			if !keep {
+				continue
+			}
+		}
 		v.Harness, v.Params, v.Choices, v.Log, v.Bound = cfg.Harness, cfg.Params, ch, x.log, it.Used
 		st.NViol++
 		st.addViol(v, cfg.MaxViol)
